@@ -216,18 +216,21 @@ def zRemRangeByScore (z : ZSet) (min max : F64) (mode : Nat) : ZSet × Int :=
   let (sl, rem) := slRemoveRange z.sl min max mode
   ({ dict := rem.foldl (fun d it => AList.erase d it.2) z.dict, sl := sl }, rem.length)
 
-/-- `skiplist.removeRangeByRank(start, stop)` -/
+/-- `skiplist.removeRangeByRank(start, stop)`: 1-based inclusive ranks -/
 def slRemoveRangeByRank (sl : List Item) (start stop : Int) : List Item × List Item :=
   let i0 : Nat := if start ≤ 1 then 0 else min (start - 1).toNat sl.length
-  let cnt : Nat := if stop < (i0 : Int) then 0 else (stop - i0 + 1).toNat
+  let cnt : Nat := if stop < (i0 : Int) + 1 then 0 else (stop - i0).toNat
   let rest := sl.drop i0
   (sl.take i0 ++ rest.drop cnt, rest.take cnt)
 
+/-- `ZRemRangeByRank(start, stop)`: 0-based inclusive, negative from the end, clamped -/
 def zRemRangeByRank (z : ZSet) (start stop : Int) : ZSet × Int :=
-  let stop := if stop < 0 then zCard z + stop else stop
-  let start := if start < 0 then zCard z + start else start
-  if start ≥ stop ∨ start < 0 then (z, 0) else
-  let (sl, rem) := slRemoveRangeByRank z.sl start stop
+  let size := zCard z
+  let start := if start < 0 then (if start + size < 0 then 0 else start + size) else start
+  let stop := if stop < 0 then stop + size else stop
+  let stop := if stop ≥ size then size - 1 else stop
+  if start > stop ∨ start ≥ size then (z, 0) else
+  let (sl, rem) := slRemoveRangeByRank z.sl (start + 1) (stop + 1)
   ({ dict := rem.foldl (fun d it => AList.erase d it.2) z.dict, sl := sl }, rem.length)
 
 def zExists (z : ZSet) (m : Bytes) : Bool := AList.contains z.dict m
